@@ -420,9 +420,9 @@ func (r *Run) ParkedTasks() []*Task {
 }
 
 // Now is the simulated time since the start of the run.
-// Microsecond resolution: the few nanoseconds that library goroutines spend in seeded delays (SetDelay) order
+// A resolution of 10 microseconds: the few nanoseconds that library goroutines spend in seeded delays (SetDelay) order
 // them but are not part of any recorded instant.
-func (r *Run) Now() time.Duration { return time.Since(r.start).Truncate(time.Microsecond) }
+func (r *Run) Now() time.Duration { return time.Since(r.start).Truncate(10 * time.Microsecond) }
 
 // Tracef appends one line to the scheduler trace (scheduler goroutine only).
 func (r *Run) Tracef(format string, a ...any) {
